@@ -979,3 +979,566 @@ Proof.
     destruct (IH (obj_set acc out v) ltac:(intros c' IN; apply H; right; exact IN)) as (vs & M & C & (m & B)).
     exists (v :: vs). cbn. rewrite GV, M, R, (key_of_correct _ _ D), D, C. eauto.
 Qed.
+
+(** the raw keys [members_ref] lists for an object are well-formed string contents *)
+Lemma members_ref_keys : forall data ms e, members_ref true data = Some (ms, e) ->
+  Forall (fun m => exists out, decode_content (snd m) = Some out) ms.
+Proof.
+  intros data ms e M. unfold members_ref in M.
+  destruct (lit_ref lit_null (skipn (ws data) data)); [inversion M; constructor|].
+  destruct (skipn (ws data) data) as [|b r]; [discriminate|].
+  destruct (isb 123 b); [|discriminate].
+  destruct (skipn (ws r) r) as [|c r1]; [discriminate|].
+  destruct (isb 125 c); [inversion M; constructor|].
+  eapply members_from_keys; eauto.
+Qed.
+
+(** * 7. The traversal: ReadArray / ReadObject at every depth, by induction on the fuel *)
+Section Main.
+  Variable readFloat64 : list byte -> Z * Z * option errk.
+  Variable num : list byte -> option Z.
+  Hypothesis FO : float_ok readFloat64 num.
+
+  Notation MEM := (ValueReader.member 10000 10000 null_spec bool_spec append_spec readFloat64).
+  Notation rdo := (read_obj 10000 10000 harr_spec hobj_spec null_spec bool_spec append_spec unescape_spec readFloat64).
+  Notation rda := (read_arr 10000 10000 harr_spec hobj_spec null_spec bool_spec append_spec unescape_spec readFloat64).
+
+  (** the offset of a reference tree is the offset of the reference skipper *)
+  Lemma vref_skip : forall depth lv t p, vref num depth lv = Some (t, p) -> 0 <= depth -> skip_ref lv = Some p.
+  Proof.
+    intros depth lv t p V DP. unfold vref in V.
+    destruct (pvalue num 10000 (length lv + 2) depth (skipn (ws lv) lv)) as [[t' n]|] eqn:PV; [|discriminate].
+    cbn in V. inversion V; subst. apply pvalue_len in PV.
+    unfold skip_ref, skip_ref_md, max_depth_ref.
+    rewrite (value_len_lower _ _ _ _ _ PV (length lv + 2)%nat 0); [reflexivity| |lia].
+    pose proof (skipn_le (ws lv) lv). lia.
+  Qed.
+
+  Lemma vref_nows : forall depth lv F, ws lv = 0%nat -> (length lv < F)%nat ->
+    option_map fst (pvalue num 10000 F depth lv) = option_map fst (vref num depth lv).
+  Proof.
+    intros depth lv F W LF. unfold vref. rewrite W. cbn [skipn].
+    rewrite (pvalue_fuel num 10000 F depth lv (length lv + 2)) by lia.
+    destruct (pvalue num 10000 (length lv + 2) depth lv) as [[t n]|]; reflexivity.
+  Qed.
+
+  Definition Rd (obj : bool) (f : nat) (depth : Z) (data : list byte) : rres :=
+    if obj then rdo f depth data else rda f depth data.
+
+  Definition Pspec (f : nat) : Prop :=
+    forall (obj : bool) depth data, 1 <= depth <= 10000 -> len data <= maxint ->
+      Sound (Rd obj f depth data) (tref num obj (depth - 1) data) /\
+      ((length data < f)%nat -> Agree (Rd obj f depth data) (tref num obj (depth - 1) data)).
+
+  Lemma len_skipn_le : forall (data : list byte) k, len data <= maxint -> len (skipn k data) <= maxint.
+  Proof. intros data k H. pose proof (skipn_le k data). unfold len in *. lia. Qed.
+
+  Section Step.
+    Variable f : nat.
+    Hypothesis PF : Pspec f.
+    Variable depth : Z.
+    Variable data : list byte.
+    Hypothesis DP : 1 <= depth <= 10000.
+    Hypothesis LEN : len data <= maxint.
+
+    Notation mem := (MEM (rdo f (depth + 1)) (rda f (depth + 1)) depth).
+
+    Lemma mem_sound : forall lv, len lv <= maxint -> Sound (mem lv) (vref num depth lv).
+    Proof.
+      intros lv LL. apply (member_gen readFloat64 num FO Sound Agree_Sound Sound_lift); [lia| |].
+      - intros b r0 L3 OB DL.
+        destruct (PF true (depth + 1) (b :: r0) ltac:(lia) ltac:(unfold len in *; lia)) as [S _].
+        replace (depth + 1 - 1) with depth in S by lia. exact S.
+      - intros b r0 L3 OB DL.
+        destruct (PF false (depth + 1) (b :: r0) ltac:(lia) ltac:(unfold len in *; lia)) as [S _].
+        replace (depth + 1 - 1) with depth in S by lia. exact S.
+    Qed.
+
+    Lemma mem_agree : forall lv, len lv <= maxint -> (length lv < f)%nat -> Agree (mem lv) (vref num depth lv).
+    Proof.
+      intros lv LL LF. apply (member_gen readFloat64 num FO Agree (fun r ref A => A) Agree_lift); [lia| |].
+      - intros b r0 L3 OB DL.
+        destruct (PF true (depth + 1) (b :: r0) ltac:(lia) ltac:(unfold len in *; lia)) as [_ A].
+        replace (depth + 1 - 1) with depth in A by lia. apply A. lia.
+      - intros b r0 L3 OB DL.
+        destruct (PF false (depth + 1) (b :: r0) ltac:(lia) ltac:(unfold len in *; lia)) as [_ A].
+        replace (depth + 1 - 1) with depth in A by lia. apply A. lia.
+    Qed.
+
+    (** the tree the reference assigns to the member at an offset *)
+    Definition mtree (m : Z * list byte) : option jv :=
+      option_map fst (vref num depth (skipn (Z.to_nat (fst m)) data)).
+
+    (** the reference on an array / object document, through [members_ref] *)
+    Lemma tref_members : forall (obj : bool) b r ms e, skipn (ws data) data = b :: r ->
+      isb (if obj then 123 else 91) b = true ->
+      Forall (fun m => 1 <= fst m /\ exists n, value_len (len data) (length data + 2) 0 (skipn (Z.to_nat (fst m)) data) = Some n) ms ->
+      members_ref obj data = Some (ms, e) ->
+      tref num obj (depth - 1) data =
+      match mapM mtree ms with
+      | Some vs => if obj then option_map (fun m => (JObj m, e)) (build_obj (combine (map snd ms) vs) []) else Some (JArr vs, e)
+      | None => None
+      end.
+    Proof.
+      intros obj b r ms e L OB FA MR. unfold tref, vref. rewrite L, OB.
+      assert (LD : (S (length r) <= length data)%nat).
+      { assert (A : length (skipn (ws data) data) = S (length r)) by (rewrite L; reflexivity). rewrite skipn_length in A. lia. }
+      pose proof (pvalue_members num data obj b r 10000 (length data + 1) (depth - 1) L OB ltac:(lia)
+                    ltac:(apply Z.leb_gt; lia)) as PM.
+      rewrite MR in PM. replace (length data + 2)%nat with (S (length data + 1)) by lia. rewrite PM.
+      2:{ intros lv v n LL PV. apply pvalue_len in PV.
+          eapply value_len_unb; [exact PV|lia|]. unfold len. lia. }
+      destruct (members_ref_end_ge obj data ms e MR) as (n & ->).
+      assert (MEQ : mapM (fun mm => option_map fst (pvalue num 10000 (length data + 1) (depth - 1 + 1) (skipn (Z.to_nat (fst mm)) data))) ms
+                    = mapM mtree ms).
+      { apply mapM_ext_in. intros m IN. rewrite Forall_forall in FA. destruct (FA m IN) as (P1 & n0 & VL).
+        unfold mtree. replace (depth - 1 + 1) with depth by lia. apply vref_nows.
+        - eapply value_len_nows; eauto.
+        - rewrite skipn_length. lia. }
+      rewrite MEQ. destruct (mapM mtree ms) as [vs|]; [|reflexivity].
+      destruct obj.
+      - destruct (build_obj _ []); cbn [option_map fst snd]; [do 2 f_equal; lia|reflexivity].
+      - cbn [option_map fst snd]. do 2 f_equal. lia.
+    Qed.
+
+    (** a member position lies strictly inside the document *)
+    Lemma member_short : forall k, 1 <= k -> (length data < S f)%nat -> data <> [] -> (length (skipn (Z.to_nat k) data) < f)%nat.
+    Proof. intros k K LF NE. rewrite skipn_length. destruct data; [contradiction|]. cbn [length] in *. lia. Qed.
+
+    (** *** arrays *)
+    Lemma arr_step :
+      Sound (rda (S f) depth data) (tref num false (depth - 1) data) /\
+      ((length data < S f)%nat -> Agree (rda (S f) depth data) (tref num false (depth - 1) data)).
+    Proof.
+      set (read1 := fun c : call => mem (skipn (Z.to_nat (c_p c)) data)).
+      set (h := (fun calls : list call => match calls with c :: _ => answer (read1 c) | [] => answer None end) : handler).
+      assert (UNF : rda (S f) depth data =
+                    match of_outcome (prun 10000 harr_spec data h [] []) with
+                    | MDone p (Some e) _ => Some (JNull, p, Some e)
+                    | MDone p None s =>
+                      match collect_arr read1 (rev (s_calls s)) [] with
+                      | Some l => match l with
+                                  | [] => if first_is_null data then Some (JNull, p, Some EInvalidArray) else Some (JArr l, p, None)
+                                  | _ :: _ => Some (JArr l, p, None)
+                                  end
+                      | None => None
+                      end
+                    | _ => None
+                    end).
+      { cbn [read_arr]. unfold handleArrayValues_m. rewrite prun_c_eq. reflexivity. }
+      assert (RS : forall c, Sound (read1 c) (vref num depth (skipn (Z.to_nat (c_p c)) data))).
+      { intros c. apply mem_sound. apply len_skipn_le. exact LEN. }
+      assert (GA : forall c calls, goodh data h (c :: calls) =
+                   match read1 c with
+                   | Some (_, p, None) => (p =? 0) || match skip_ref (skipn (Z.to_nat (c_p c)) data) with Some n => n =? p | None => false end
+                   | _ => false
+                   end).
+      { intros c calls. unfold goodh, h. destruct (read1 c) as [[[v p] [e|]]|]; reflexivity. }
+      assert (EXACT : forall c v p, read1 c = Some (v, p, None) -> skip_ref (skipn (Z.to_nat (c_p c)) data) = Some p).
+      { intros c v p R. apply (vref_skip depth _ v p); [|lia]. apply (RS c v p R). }
+      assert (BAD : reports_when_bad data h).
+      { intros [|c calls] G; [discriminate|]. rewrite GA in G. unfold h.
+        destruct (read1 c) as [[[v p] [e|]]|] eqn:R; cbn; eauto.
+        rewrite (EXACT c v p R), Z.eqb_refl, orb_true_r in G. discriminate. }
+      pose proof (members_spec_err false data h [] [] LEN BAD) as M. cbv zeta in M.
+      assert (ERR : forall p e, rda (S f) depth data = Some (JNull, p, Some e) ->
+                    tref num false (depth - 1) data = None \/ ~ (length data < S f)%nat ->
+                    Sound (rda (S f) depth data) (tref num false (depth - 1) data) /\
+                    ((length data < S f)%nat -> Agree (rda (S f) depth data) (tref num false (depth - 1) data))).
+      { intros p e E TN. rewrite E. split; [intros t p' EQ; discriminate|].
+        intros LF. destruct TN as [TN|TN]; [|contradiction]. rewrite TN. cbn. eauto. }
+      assert (OKA : forall t p, rda (S f) depth data = Some (t, p, None) -> tref num false (depth - 1) data = Some (t, p) ->
+                    Sound (rda (S f) depth data) (tref num false (depth - 1) data) /\
+                    ((length data < S f)%nat -> Agree (rda (S f) depth data) (tref num false (depth - 1) data))).
+      { intros t p E TR. assert (A : Agree (rda (S f) depth data) (tref num false (depth - 1) data)) by (rewrite TR; exact E).
+        split; [apply Agree_Sound; exact A|intros _; exact A]. }
+      destruct (members_ref false data) as [[ms e]|] eqn:MR.
+      2:{ (* the reference finds no array *)
+          destruct M as (p & e & s & E). apply (ERR p e); [rewrite UNF, E; reflexivity|]. left.
+          unfold tref. destruct (skipn (ws data) data) as [|b r] eqn:L; [reflexivity|].
+          destruct (isb 91 b) eqn:OB; [|reflexivity]. unfold vref. rewrite L.
+          assert (LD : (S (length r) <= length data)%nat).
+          { assert (A : length (skipn (ws data) data) = S (length r)) by (rewrite L; reflexivity). rewrite skipn_length in A. lia. }
+          pose proof (pvalue_members num data false b r 10000 (length data + 1) (depth - 1) L OB ltac:(lia)
+                        ltac:(apply Z.leb_gt; lia)) as PM.
+          rewrite MR in PM. replace (length data + 2)%nat with (S (length data + 1)) by lia. rewrite PM; [reflexivity|].
+          intros lv v n LL PV. apply pvalue_len in PV. eapply value_len_unb; [exact PV|lia|]. unfold len. lia. }
+      destruct M as (s2 & E2 & C2 & DI).
+      destruct (members_ref_cases false data ms e MR) as (b & r & L & [[BN ->]|[OB FA]]).
+      - (* the literal null: rejected *)
+        assert (CN : s_calls s2 = []).
+        { destruct (s_calls s2) as [|c0 cs] eqn:SC; [reflexivity|]. cbn [rev] in C2.
+          rewrite map_app in C2. apply app_eq_nil in C2. destruct C2 as [_ C2]. discriminate. }
+        assert (FN : first_is_null data = true) by (rewrite first_is_null_spec, L; exact BN).
+        assert (TN : tref num false (depth - 1) data = None).
+        { unfold tref. rewrite L. apply Z.eqb_eq in BN. unfold isb. rewrite BN. reflexivity. }
+        destruct DI as [[_ E]|[NAG _]].
+        + apply (ERR e EInvalidArray); [|left; exact TN]. rewrite UNF, E. cbn [of_outcome]. rewrite CN. cbn. rewrite FN. reflexivity.
+        + exfalso. apply NAG. rewrite CN. apply AllGood_same.
+      - (* an array *)
+        pose proof (tref_members false b r ms e L OB FA MR) as TR. cbv iota in TR.
+        assert (FN : first_is_null data = false).
+        { rewrite first_is_null_spec, L. apply Z.eqb_eq in OB. unfold isb. rewrite OB. reflexivity. }
+        assert (NE : data <> []) by (intros ->; rewrite skipn_nil in L; discriminate).
+        destruct DI as [[AG E]|[NAG (p' & tok & s' & E)]].
+        + (* every member was read *)
+          destruct (collect_arr_ok read1 (fun c => mtree (callpair c)) (rev (s_calls s2)) []) as (vs & MM & CA).
+          { intros c IN. apply in_rev in IN. destruct (in_suffix c _ IN) as (rest & SF).
+            pose proof (AG (c :: rest) SF ltac:(cbn; lia)) as GD. rewrite GA in GD.
+            destruct (read1 c) as [[[v p] [e0|]]|] eqn:R1; try discriminate. exists v, p. split; [reflexivity|].
+            unfold mtree, callpair. cbn [fst]. rewrite (RS c v p R1). reflexivity. }
+          rewrite <- mapM_map, C2 in MM. rewrite MM in TR. cbn [app] in CA.
+          apply (OKA (JArr vs) e); [|exact TR].
+          rewrite UNF, E. cbn [of_outcome]. rewrite CA. destruct vs; [rewrite FN|]; reflexivity.
+        + (* some member read failed *)
+          apply (ERR p' (EHandler tok)); [rewrite UNF, E; reflexivity|].
+          destruct (Nat.lt_ge_cases (length data) (S f)) as [LF|LF]; [left|right; lia].
+          destruct (AllGood_dec (goodh data h) (s_calls s2)) as [AG|(L0 & SF & NE0 & GB)]; [contradiction|].
+          destruct L0 as [|c rest]; [contradiction|].
+          assert (IN : In (callpair c) ms).
+          { rewrite <- C2. apply in_map. apply -> in_rev. eapply suffix_head_in; eauto. }
+          rewrite TR. rewrite Forall_forall in FA. destruct (FA _ IN) as (P1 & _). unfold callpair in P1. cbn [fst] in P1.
+          destruct (mtree (callpair c)) as [t|] eqn:GC; [exfalso|rewrite (mapM_none mtree ms _ IN GC); reflexivity].
+          unfold mtree, callpair in GC. cbn [fst] in GC.
+          destruct (vref num depth (skipn (Z.to_nat (c_p c)) data)) as [[t' p]|] eqn:VR; [|discriminate].
+          pose proof (mem_agree (skipn (Z.to_nat (c_p c)) data) (len_skipn_le _ _ LEN) (member_short _ P1 LF NE)) as A.
+          rewrite VR in A. cbn in A. rewrite GA in GB. fold (read1 c) in A. rewrite A in GB.
+          rewrite (EXACT c t' p A), Z.eqb_refl, orb_true_r in GB. discriminate.
+    Qed.
+
+    (** *** objects *)
+    Lemma obj_step :
+      Sound (rdo (S f) depth data) (tref num true (depth - 1) data) /\
+      ((length data < S f)%nat -> Agree (rdo (S f) depth data) (tref num true (depth - 1) data)).
+    Proof.
+      set (read1 := fun c : call => match key_of 10000 unescape_spec (c_key c) with
+                                    | inl (Some _) => mem (skipn (Z.to_nat (c_p c)) data)
+                                    | inl None => Some (JNull, 0, Some EInvalidString)
+                                    | inr _ => None
+                                    end).
+      set (h := (fun calls : list call => match calls with c :: _ => answer (read1 c) | [] => answer None end) : handler).
+      assert (UNF : rdo (S f) depth data =
+                    match of_outcome (prun 10000 hobj_spec data h [] []) with
+                    | MDone p (Some e) _ => Some (JNull, p, Some e)
+                    | MDone p None s =>
+                      match collect_obj 10000 unescape_spec read1 (rev (s_calls s)) [] with
+                      | Some l => match l with
+                                  | [] => if first_is_null data then Some (JNull, p, Some EInvalidObject) else Some (JObj l, p, None)
+                                  | _ :: _ => Some (JObj l, p, None)
+                                  end
+                      | None => None
+                      end
+                    | _ => None
+                    end).
+      { cbn [read_obj]. unfold handleObjectValues_m. rewrite prun_c_eq. reflexivity. }
+      assert (RS : forall c, Sound (read1 c) (vref num depth (skipn (Z.to_nat (c_p c)) data))).
+      { intros c. unfold read1. destruct (key_of 10000 unescape_spec (c_key c)) as [[k|]|]; try (intros t p EQ; discriminate).
+        apply mem_sound. apply len_skipn_le. exact LEN. }
+      assert (GA : forall c calls, goodh data h (c :: calls) =
+                   match read1 c with
+                   | Some (_, p, None) => (p =? 0) || match skip_ref (skipn (Z.to_nat (c_p c)) data) with Some n => n =? p | None => false end
+                   | _ => false
+                   end).
+      { intros c calls. unfold goodh, h. destruct (read1 c) as [[[v p] [e|]]|]; reflexivity. }
+      assert (EXACT : forall c v p, read1 c = Some (v, p, None) -> skip_ref (skipn (Z.to_nat (c_p c)) data) = Some p).
+      { intros c v p R. apply (vref_skip depth _ v p); [|lia]. apply (RS c v p R). }
+      assert (BAD : reports_when_bad data h).
+      { intros [|c calls] G; [discriminate|]. rewrite GA in G. unfold h.
+        destruct (read1 c) as [[[v p] [e|]]|] eqn:R; cbn; eauto.
+        rewrite (EXACT c v p R), Z.eqb_refl, orb_true_r in G. discriminate. }
+      pose proof (members_spec_err true data h [] [] LEN BAD) as M. cbv zeta in M.
+      assert (ERR : forall p e, rdo (S f) depth data = Some (JNull, p, Some e) ->
+                    tref num true (depth - 1) data = None \/ ~ (length data < S f)%nat ->
+                    Sound (rdo (S f) depth data) (tref num true (depth - 1) data) /\
+                    ((length data < S f)%nat -> Agree (rdo (S f) depth data) (tref num true (depth - 1) data))).
+      { intros p e E TN. rewrite E. split; [intros t p' EQ; discriminate|].
+        intros LF. destruct TN as [TN|TN]; [|contradiction]. rewrite TN. cbn. eauto. }
+      assert (OKA : forall t p, rdo (S f) depth data = Some (t, p, None) -> tref num true (depth - 1) data = Some (t, p) ->
+                    Sound (rdo (S f) depth data) (tref num true (depth - 1) data) /\
+                    ((length data < S f)%nat -> Agree (rdo (S f) depth data) (tref num true (depth - 1) data))).
+      { intros t p E TR. assert (A : Agree (rdo (S f) depth data) (tref num true (depth - 1) data)) by (rewrite TR; exact E).
+        split; [apply Agree_Sound; exact A|intros _; exact A]. }
+      destruct (members_ref true data) as [[ms e]|] eqn:MR.
+      2:{ (* the reference finds no object *)
+          destruct M as (p & e & s & E). apply (ERR p e); [rewrite UNF, E; reflexivity|]. left.
+          unfold tref. destruct (skipn (ws data) data) as [|b r] eqn:L; [reflexivity|].
+          destruct (isb 123 b) eqn:OB; [|reflexivity]. unfold vref. rewrite L.
+          assert (LD : (S (length r) <= length data)%nat).
+          { assert (A : length (skipn (ws data) data) = S (length r)) by (rewrite L; reflexivity). rewrite skipn_length in A. lia. }
+          pose proof (pvalue_members num data true b r 10000 (length data + 1) (depth - 1) L OB ltac:(lia)
+                        ltac:(apply Z.leb_gt; lia)) as PM.
+          rewrite MR in PM. replace (length data + 2)%nat with (S (length data + 1)) by lia. rewrite PM; [reflexivity|].
+          intros lv v n LL PV. apply pvalue_len in PV. eapply value_len_unb; [exact PV|lia|]. unfold len. lia. }
+      destruct M as (s2 & E2 & C2 & DI).
+      destruct (members_ref_cases true data ms e MR) as (b & r & L & [[BN ->]|[OB FA]]).
+      - (* the literal null: rejected *)
+        assert (CN : s_calls s2 = []).
+        { destruct (s_calls s2) as [|c0 cs] eqn:SC; [reflexivity|]. cbn [rev] in C2.
+          rewrite map_app in C2. apply app_eq_nil in C2. destruct C2 as [_ C2]. discriminate. }
+        assert (FN : first_is_null data = true) by (rewrite first_is_null_spec, L; exact BN).
+        assert (TN : tref num true (depth - 1) data = None).
+        { unfold tref. rewrite L. apply Z.eqb_eq in BN. unfold isb. rewrite BN. reflexivity. }
+        destruct DI as [[_ E]|[NAG _]].
+        + apply (ERR e EInvalidObject); [|left; exact TN]. rewrite UNF, E. cbn [of_outcome]. rewrite CN. cbn. rewrite FN. reflexivity.
+        + exfalso. apply NAG. rewrite CN. apply AllGood_same.
+      - (* an object *)
+        pose proof (tref_members true b r ms e L OB FA MR) as TR. cbv iota in TR.
+        assert (FN : first_is_null data = false).
+        { rewrite first_is_null_spec, L. apply Z.eqb_eq in OB. unfold isb. rewrite OB. reflexivity. }
+        assert (NE : data <> []) by (intros ->; rewrite skipn_nil in L; discriminate).
+        destruct DI as [[AG E]|[NAG (p' & tok & s' & E)]].
+        + (* every member was read *)
+          pose proof (members_ref_keys data ms e MR) as KD. rewrite Forall_forall in KD.
+          destruct (collect_obj_ok read1 (fun c => mtree (callpair c)) (rev (s_calls s2)) []) as (vs & MM & CA & (m & BO)).
+          { intros c IN. assert (INM : In (callpair c) ms) by (rewrite <- C2; apply in_map; exact IN).
+            split; [|apply (KD _ INM)].
+            apply in_rev in IN. destruct (in_suffix c _ IN) as (rest & SF).
+            pose proof (AG (c :: rest) SF ltac:(cbn; lia)) as GD. rewrite GA in GD.
+            destruct (read1 c) as [[[v p] [e0|]]|] eqn:R1; try discriminate. exists v, p. split; [reflexivity|].
+            unfold mtree, callpair. cbn [fst]. rewrite (RS c v p R1). reflexivity. }
+          rewrite <- mapM_map, C2 in MM. rewrite MM in TR.
+          assert (KS : map c_key (rev (s_calls s2)) = map snd ms) by (rewrite <- C2, map_map; reflexivity).
+          rewrite KS in *. rewrite BO in TR. cbn [option_map] in TR.
+          apply (OKA (JObj m) e); [|exact TR].
+          rewrite UNF, E. cbn [of_outcome]. rewrite CA, BO. destruct m; [rewrite FN|]; reflexivity.
+        + (* some member read failed *)
+          apply (ERR p' (EHandler tok)); [rewrite UNF, E; reflexivity|].
+          destruct (Nat.lt_ge_cases (length data) (S f)) as [LF|LF]; [left|right; lia].
+          destruct (AllGood_dec (goodh data h) (s_calls s2)) as [AG|(L0 & SF & NE0 & GB)]; [contradiction|].
+          destruct L0 as [|c rest]; [contradiction|].
+          assert (IN : In (callpair c) ms).
+          { rewrite <- C2. apply in_map. apply -> in_rev. eapply suffix_head_in; eauto. }
+          rewrite TR. rewrite Forall_forall in FA. destruct (FA _ IN) as (P1 & _). unfold callpair in P1. cbn [fst] in P1.
+          destruct (mtree (callpair c)) as [t|] eqn:GC; [exfalso|rewrite (mapM_none mtree ms _ IN GC); reflexivity].
+          unfold mtree, callpair in GC. cbn [fst] in GC.
+          destruct (vref num depth (skipn (Z.to_nat (c_p c)) data)) as [[t' p]|] eqn:VR; [|discriminate].
+          pose proof (mem_agree (skipn (Z.to_nat (c_p c)) data) (len_skipn_le _ _ LEN) (member_short _ P1 LF NE)) as A.
+          rewrite VR in A. cbn in A. rewrite GA in GB.
+          pose proof (members_ref_keys data ms e MR) as KD. rewrite Forall_forall in KD.
+          destruct (KD _ IN) as (out & DC). unfold callpair in DC. cbn [snd] in DC.
+          assert (A' : read1 c = Some (t', p, None)) by (unfold read1; rewrite (key_of_correct _ _ DC); exact A).
+          clear A. rename A' into A. rewrite A in GB.
+          rewrite (EXACT c t' p A), Z.eqb_refl, orb_true_r in GB. discriminate.
+    Qed.
+  End Step.
+End Main.
+
+(** * 8. The theorems *)
+Section Theorems.
+  Variable readFloat64 : list byte -> Z * Z * option errk.
+  Variable num : list byte -> option Z.
+  Hypothesis FO : float_ok readFloat64 num.
+
+  Notation MEM := (ValueReader.member 10000 10000 null_spec bool_spec append_spec readFloat64).
+  Notation rdo := (read_obj 10000 10000 harr_spec hobj_spec null_spec bool_spec append_spec unescape_spec readFloat64).
+  Notation rda := (read_arr 10000 10000 harr_spec hobj_spec null_spec bool_spec append_spec unescape_spec readFloat64).
+
+  (** at every fuel and depth: a successful typed read returns the reference tree and offset; with
+      fuel above the length of the input the read agrees with the reference altogether *)
+  Theorem pspec_all : forall f, Pspec readFloat64 num f.
+  Proof.
+    induction f as [|f IH]; intros obj depth data DP LEN.
+    - split; [intros t p E; destruct obj; discriminate|intros LF; lia].
+    - destruct obj; [apply obj_step|apply arr_step]; auto.
+  Qed.
+
+  Lemma ReadValue_member : forall data,
+    ReadValue 10000 10000 harr_spec hobj_spec null_spec bool_spec append_spec unescape_spec readFloat64 data =
+    MEM (rdo (vr_fuel data) 1) (rda (vr_fuel data) 1) 0 data.
+  Proof.
+    intros data. unfold ReadValue, ValueReader.member. destruct (NextTokenType data) as [[tp p] [e|]]; reflexivity.
+  Qed.
+
+  (** C03: ReadValue returns the reference tree and the offset just after the value, or an error when
+      the reference assigns no tree (malformed, nested deeper than 10000, a number out of range):
+      never an abnormal outcome, never another tree *)
+  Theorem read_value_tree : forall data, len data <= maxint ->
+    match parse_ref num data with
+    | Some (t, p) =>
+      ReadValue 10000 10000 harr_spec hobj_spec null_spec bool_spec append_spec unescape_spec readFloat64 data = Some (t, p, None)
+    | None =>
+      exists v p e,
+        ReadValue 10000 10000 harr_spec hobj_spec null_spec bool_spec append_spec unescape_spec readFloat64 data = Some (v, p, Some e)
+    end.
+  Proof.
+    intros data LEN. rewrite ReadValue_member. rewrite <- vref_parse.
+    change (Agree (MEM (rdo (vr_fuel data) 1) (rda (vr_fuel data) 1) 0 data) (vref num 0 data)).
+    apply (member_gen readFloat64 num FO Agree (fun r ref A => A) Agree_lift); [lia| |].
+    - intros b r0 LL OB _.
+      destruct (pspec_all (vr_fuel data) true 1 (b :: r0) ltac:(lia) ltac:(unfold len in *; lia)) as [_ A].
+      apply A. unfold vr_fuel. lia.
+    - intros b r0 LL OB _.
+      destruct (pspec_all (vr_fuel data) false 1 (b :: r0) ltac:(lia) ltac:(unfold len in *; lia)) as [_ A].
+      apply A. unfold vr_fuel. lia.
+  Qed.
+
+  (** C03 for the typed entry points: ReadObject / ReadArray return the reference tree of an object /
+      array document, and an error on every other document (null included) *)
+  Theorem read_object_tree : forall data, len data <= maxint ->
+    match parse_typed_ref num true data with
+    | Some (t, p) =>
+      ReadObject 10000 10000 harr_spec hobj_spec null_spec bool_spec append_spec unescape_spec readFloat64 data = Some (t, p, None)
+    | None =>
+      exists v p e,
+        ReadObject 10000 10000 harr_spec hobj_spec null_spec bool_spec append_spec unescape_spec readFloat64 data = Some (v, p, Some e)
+    end.
+  Proof.
+    intros data LEN. destruct (pspec_all (vr_fuel data) true 1 data ltac:(lia) LEN) as [_ A].
+    rewrite <- tref_parse. apply A. unfold vr_fuel. lia.
+  Qed.
+
+  Theorem read_array_tree : forall data, len data <= maxint ->
+    match parse_typed_ref num false data with
+    | Some (t, p) =>
+      ReadArray 10000 10000 harr_spec hobj_spec null_spec bool_spec append_spec unescape_spec readFloat64 data = Some (t, p, None)
+    | None =>
+      exists v p e,
+        ReadArray 10000 10000 harr_spec hobj_spec null_spec bool_spec append_spec unescape_spec readFloat64 data = Some (v, p, Some e)
+    end.
+  Proof.
+    intros data LEN. destruct (pspec_all (vr_fuel data) false 1 data ltac:(lia) LEN) as [_ A].
+    rewrite <- tref_parse. apply A. unfold vr_fuel. lia.
+  Qed.
+
+  (** the reference tree parser succeeds only where the reference skipper does, with the same offset;
+      so (C08) the offset ReadValue returns is a correct place to resume *)
+  Theorem parse_ref_skip : forall data t p, parse_ref num data = Some (t, p) -> skip_ref data = Some p.
+  Proof. intros data t p H. rewrite <- vref_parse in H. eapply vref_skip; eauto. lia. Qed.
+
+  Corollary read_value_offset_is_skip : forall data t p, len data <= maxint ->
+    ReadValue 10000 10000 harr_spec hobj_spec null_spec bool_spec append_spec unescape_spec readFloat64 data = Some (t, p, None) ->
+    skip_ref data = Some p.
+  Proof.
+    intros data t p LEN H. pose proof (read_value_tree data LEN) as T.
+    destruct (parse_ref num data) as [[t' p']|] eqn:PR.
+    - rewrite T in H. inversion H; subst. eapply parse_ref_skip; eauto.
+    - destruct T as (v & p0 & e & T). rewrite T in H. discriminate.
+  Qed.
+
+  (** never abnormal *)
+  Corollary read_value_total : forall data, len data <= maxint ->
+    ReadValue 10000 10000 harr_spec hobj_spec null_spec bool_spec append_spec unescape_spec readFloat64 data <> None.
+  Proof.
+    intros data LEN H. pose proof (read_value_tree data LEN) as T. rewrite H in T.
+    destruct (parse_ref num data) as [[t p]|]; [discriminate|]. destruct T as (v & p & e & T). discriminate.
+  Qed.
+End Theorems.
+
+(** the examples of Part 2 are instances (the toy float layer satisfies [float_ok]) *)
+Example read_value_tree_ex :
+  RV toy_readFloat64 doc1 = Some (JObj [([x61], JArr [JBool true; JNull]); ([x62; x0a], JStr [x78; x41])], 39, None) /\
+  (exists v p e, RV toy_readFloat64 doc5 = Some (v, p, Some e)).
+Proof.
+  split.
+  - pose proof (read_value_tree toy_readFloat64 toy_num toy_float_ok doc1 ltac:(vm_compute; discriminate)) as T.
+    rewrite parse_ref_ex1 in T. exact T.
+  - pose proof (read_value_tree toy_readFloat64 toy_num toy_float_ok doc5 ltac:(vm_compute; discriminate)) as T.
+    assert (N : parse_ref toy_num doc5 = None) by (vm_compute; reflexivity). rewrite N in T. exact T.
+Qed.
+
+Print Assumptions read_value_tree.
+Print Assumptions read_object_tree.
+Print Assumptions read_array_tree.
+Print Assumptions read_value_offset_is_skip.
+
+(** * 9. The float layer of the model satisfies [float_ok]
+    ReadFloat64 of the model (Fp.v), wrapped as in run/Inst.v ([i_ReadFloat64 = rf64 fpT]), with the
+    value of a number token given by ParseJSONFloatPrefix on the isolated token ([num_model]):
+    token-locality and strictness come from FloatTok.v, the link of [num_model] with the specified
+    rounding [jn_round] from FpFacts.parse_correct_partial (under its hypotheses). *)
+From Rjson Require Import Fp FpSpec FpTables FpScan FpFacts FloatTok.
+
+Definition rf64 (T : fp_tables) (data : list byte) : Z * Z * option errk :=
+  match ReadFloat64_m T data with
+  | Some (v, p, None) => (v, p, None)
+  | Some (_, p, Some _) => (0, p, Some EInvalidNumber)
+  | None => (0, 0, Some EOther)
+  end.
+
+Definition num_model (T : fp_tables) (t : list byte) : option Z :=
+  match ParseJSONFloatPrefix_m T t with Some (v, _, None) => Some v | _ => None end.
+
+Theorem float_ok_model : forall T, float_ok (rf64 T) (num_model T).
+Proof.
+  intros T data. cbv zeta. pose proof (ReadFloat64_tok T data) as R. cbv zeta in R. unfold rf64, num_model.
+  destruct (number_tok (skipn (ws data) data)) as [n|].
+  - rewrite R. destruct (ParseJSONFloatPrefix_m T (firstn n _)) as [[[v pp] [e|]]|]; cbn; eauto.
+  - destruct R as (p & e & ->). eauto.
+Qed.
+
+(** C03 for the model's own float layer, for any tables *)
+Theorem read_value_tree_model : forall T data, len data <= maxint ->
+  match parse_ref (num_model T) data with
+  | Some (t, p) =>
+    ReadValue 10000 10000 harr_spec hobj_spec null_spec bool_spec append_spec unescape_spec (rf64 T) data = Some (t, p, None)
+  | None =>
+    exists v p e,
+      ReadValue 10000 10000 harr_spec hobj_spec null_spec bool_spec append_spec unescape_spec (rf64 T) data = Some (v, p, Some e)
+  end.
+Proof. intros T data. apply read_value_tree. apply float_ok_model. Qed.
+
+Theorem read_object_tree_model : forall T data, len data <= maxint ->
+  match parse_typed_ref (num_model T) true data with
+  | Some (t, p) =>
+    ReadObject 10000 10000 harr_spec hobj_spec null_spec bool_spec append_spec unescape_spec (rf64 T) data = Some (t, p, None)
+  | None =>
+    exists v p e,
+      ReadObject 10000 10000 harr_spec hobj_spec null_spec bool_spec append_spec unescape_spec (rf64 T) data = Some (v, p, Some e)
+  end.
+Proof. intros T data. apply read_object_tree. apply float_ok_model. Qed.
+
+Theorem read_array_tree_model : forall T data, len data <= maxint ->
+  match parse_typed_ref (num_model T) false data with
+  | Some (t, p) =>
+    ReadArray 10000 10000 harr_spec hobj_spec null_spec bool_spec append_spec unescape_spec (rf64 T) data = Some (t, p, None)
+  | None =>
+    exists v p e,
+      ReadArray 10000 10000 harr_spec hobj_spec null_spec bool_spec append_spec unescape_spec (rf64 T) data = Some (v, p, Some e)
+  end.
+Proof. intros T data. apply read_array_tree. apply float_ok_model. Qed.
+
+(** the value [num_model] assigns to a literal is the specified rounding, under the hypotheses of
+    FpFacts.parse_correct_partial (exponent of at most 5 significant digits, at most 800 significant
+    digits, a slow path that drops no non-zero digit): the bits of round-to-nearest-even, or no value
+    when the rounding overflows *)
+Corollary num_model_spec : forall T j v n err,
+  tables_ok T -> jn_wf j = true -> FpScan.exp_small j ->
+  len (strip0 (j_int j ++ jn_frac_digits j)) <= 800 ->
+  (fast_path T (readFloat_m (jn_bytes j)) = None -> slow_ok T (jn_bytes j) = true) ->
+  ParseJSONFloatPrefix_m T (jn_bytes j) = Some (v, n, err) ->
+  num_model T (jn_bytes j) = if snd (jn_round j) then None else Some (fst (jn_round j)).
+Proof.
+  intros T j v n err HT Hwf Hes H800 Hslow P.
+  pose proof (parse_correct_partial T j [] v n err HT Hwf Hes I H800) as C. rewrite app_nil_r in C.
+  destruct (C Hslow P) as [_ R]. unfold num_model. rewrite P. unfold parse_result_ok in R.
+  destruct (snd (jn_round j)).
+  - destruct R as [_ ->]. reflexivity.
+  - destruct R as [-> ->]. reflexivity.
+Qed.
+Print Assumptions float_ok_model.
+Print Assumptions read_value_tree_model.
+Print Assumptions num_model_spec.
+
+(** an instance with the model's float layer: small integers take the exact path, which needs no table
+    entry, so empty tables do.  [1,{"a":-3}] : 1.0 = 0x3FF0000000000000, -3.0 = 0xC008000000000000 *)
+Definition T0 : fp_tables :=
+  {| t_pow10 := []; t_minexp10 := -348; t_maxexp10 := 347; t_f64pow10 := []; t_powtab := []; t_leftcheats := [];
+     t_mantbits := 52; t_expbits := 11; t_bias := -1023 |}.
+Definition doc19 := s2b [91;49;44;123;34;97;34;58;45;51;125;93].
+Example read_value_tree_model_ex :
+  parse_ref (num_model T0) doc19 = Some (JArr [JNum 4607182418800017408; JObj [([x61], JNum 13837309855095848960)]], 12) /\
+  RV (rf64 T0) doc19 = Some (JArr [JNum 4607182418800017408; JObj [([x61], JNum 13837309855095848960)]], 12, None).
+Proof.
+  assert (P : parse_ref (num_model T0) doc19 =
+              Some (JArr [JNum 4607182418800017408; JObj [([x61], JNum 13837309855095848960)]], 12)) by (vm_compute; reflexivity).
+  split; [exact P|].
+  pose proof (read_value_tree_model T0 doc19 ltac:(vm_compute; discriminate)) as T. rewrite P in T. exact T.
+Qed.
+Example read_value_tree_model_ex_compute :
+  RV (rf64 T0) doc19 = Some (JArr [JNum 4607182418800017408; JObj [([x61], JNum 13837309855095848960)]], 12, None).
+Proof. vm_compute. reflexivity. Qed.
+Print Assumptions pspec_all.
+Print Assumptions parse_ref_skip.
+Print Assumptions read_value_total.
+Print Assumptions read_object_tree_model.
+Print Assumptions read_array_tree_model.
